@@ -708,6 +708,32 @@ pub fn check_fault_free(case: &Case, ctx: &mut Ctx) {
     }
 }
 
+/// structs and variants with three, four and five fields; unique paths
+pub fn many_fields_program() -> Program {
+    let m = ["p", "f"];
+    let leaf = Ty::Named(0, vec![]);
+    let tys = [U8, U16, U32, leaf.clone(), Ty::Vec(b(U8))];
+    let names = ["a", "b", "c", "d", "e"];
+    let mut defs = vec![Def::strukt(&m, "Leaf", &[], named(vec![("v", U32)]))];
+    let mut host = vec![];
+    for n in 3..=5usize {
+        defs.push(Def::strukt(&m, &format!("S{n}"), &[], named((0..n).map(|i| (names[i], tys[i].clone())).collect())));
+        host.push((format!("s{n}"), Ty::Named(defs.len() - 1, vec![])));
+        defs.push(Def::strukt(&m, &format!("T{n}"), &[], Fields::Unnamed((0..n).map(|i| Field::new(tys[i].clone())).collect())));
+        host.push((format!("t{n}"), Ty::Named(defs.len() - 1, vec![])));
+    }
+    defs.push(Def::enm(&m, "E", &[], vec![
+        variant("N3", Fields::Named((0..3).map(|i| (names[i].to_string(), Field::new(tys[i].clone()))).collect())),
+        variant("U3", Fields::Unnamed((0..3).map(|i| Field::new(tys[i].clone())).collect())),
+        variant("N5", Fields::Named((0..5).map(|i| (names[i].to_string(), Field::new(tys[i].clone()))).collect())),
+        variant("U4", Fields::Unnamed((0..4).map(|i| Field::new(tys[i].clone())).collect())),
+    ]));
+    host.push(("e".to_string(), Ty::Named(defs.len() - 1, vec![])));
+    defs.push(Def::strukt(&["p", "h"], "Host", &[], Fields::Named(host.into_iter().map(|(n, t)| (n, Field::new(t))).collect())));
+    let h = defs.len() - 1;
+    Program { defs, roots: vec![Ty::Named(h, vec![])] }
+}
+
 pub fn run(tier: &str, seed: u64) -> i32 {
     let mut report = Report::new("C10", tier, seed, "fault_enumeration");
     let thorough = tier == "thorough";
@@ -742,6 +768,23 @@ pub fn run(tier: &str, seed: u64) -> i32 {
             }
         }
     }));
+    // a base with field lists of three, four and five fields (named, unnamed, in variants) and eleven entries: a
+    // fault in the LAST of an odd number of fields, in an interior entry
+    {
+        let bases = vec![many_fields_program()];
+        report.add(sweep(
+            "faults x D-fields base (structs and variants with 3, 4 and 5 fields, named and unnamed)",
+            &bases,
+            Duration::from_secs(60),
+            |p| json!({"program": p.to_source()}),
+            |prog, ctx| {
+                let base = elaborate(prog).registry;
+                for f in faults_of(&base) {
+                    check_fault(prog, &base, &f, false, ctx);
+                }
+            },
+        ));
+    }
     // bases in which one generic definition has two instantiations (two entries under one path that
     // `ensure_unique_type_paths` leaves alone: "unique paths" in the library's sense): a fault in the second
     // instantiation's entry, or in a helper below it, must be reported like any other
